@@ -233,6 +233,20 @@ def run(rep, ctx):
     mo = [n for n in so.walk() if n["k"] == "IfStmt" and render(kids(n)[0]).endswith("multiobj()")]
     ok = ok and len(mo) == 1 and "o1 = 0" in render(kids(mo[0])[1]) and "num_objs()" in render(kids(mo[0])[1])
     g1.check(ok, "objective-names-follow-selection", short_loc(so.loc), "objective names: the selected objective objno_used()-1, or all under multiobj (agrees with C12)")
+    # .row layout: constraint names (algebraic + logical) first, objective names after them
+    rowreq = [g_ for g_ in got if "num_objs()" in g_]
+    ncdecl = [v for v in so.walk() if v["k"] == "VarDecl" and v.get("name") == "num_c"]
+    nctxt = render(kids(ncdecl[0])[0]).replace(" ", "").replace("GetModel().", "") if len(ncdecl) == 1 and kids(ncdecl[0]) else "?"
+    lp = [n for n in so.walk() if n["k"] == "ForStmt"]
+    lpt = render(lp[0]).replace(" ", "") if len(lp) == 1 else ""
+    nmc = [c for c in calls(so, name="name")]
+    okl = len(rowreq) == 1 and rowreq[0] == nctxt + "+num_objs()" and "io=num_c+o1" in lpt and "io<num_c+o2" in lpt and len(nmc) == 1 and render(call_args(nmc[0])[0]) == "io" and \
+        any(n_["k"] == "BinaryOperator" and render(n_).replace(" ", "") == "io-num_c+1" for n_ in so.walk())
+    scn = calls(rn, name="get_names")
+    sct = sorted(render(c).replace(" ", "").replace("GetModel().", "") for c in scn)
+    okl = okl and any("get_names(num_cons(),num_algebraic_cons())" in t_ for t_ in sct)
+    g1.check(okl, "row-layout", short_loc(so.loc), "objective names start after all num_cons() constraint names of the .row file (the count ReadNames requests), generated names count from 1",
+             "objective names are taken from row index `%s` + k while the .row file holds %s names before them: with logical constraints an objective gets the name of another item" % (nctxt, rowreq[0].replace("+num_objs()", "") if rowreq else "?"))
     fb = [n for n in so.walk() if n["k"] == "IfStmt" and "number_read()" in render(kids(n)[0])]
     g1.check(len(fb) == 1 and "_sobj[" in render(fb[0]), "objective-generic-fallback", short_loc(so.loc), "objective names missing from the .row file are generated")
 
